@@ -38,7 +38,11 @@ func (c *Ctx) step(st *State, fr *Frame, ins ssa.Instruction) []cont {
 		}
 		return one(st, fr)
 	case *ssa.Alloc:
-		fr.regs[x] = c.doAlloc(st, deref(x.Type()), x.Comment)
+		v := c.doAlloc(st, deref(x.Type()), x.Comment)
+		if t, ok := v.(Term); ok && !x.Heap {
+			st.locals = append(st.locals, t.S)
+		}
+		fr.regs[x] = v
 		return one(st, fr)
 	case *ssa.BinOp:
 		fr.regs[x] = c.doBinOp(st, fr, x)
